@@ -124,6 +124,12 @@ type AlgoStats struct {
 	// with an input cap; Compressor.Close may fail like any io.Closer).
 	FailOver       int32
 	Refusals       int64
+	// CloseVerdict != 0: a decompressor that finds its input corrupt does not
+	// say so from Reset or Read; it hands out the bytes it has and reports the
+	// problem from Close (a trailing-checksum format: Decompressor.Close may
+	// return an error). Reset discards that state, as the interface requires.
+	CloseVerdict   int32
+	LateVerdicts   int64
 	Compressions   int64
 	Decompressions int64
 	Violations     int64
@@ -234,6 +240,7 @@ type zzDecompressor struct {
 	// call owns the object.
 	busy     int32
 	readOnce int32
+	closeErr error
 }
 
 func (d *zzDecompressor) enter() {
@@ -264,6 +271,11 @@ func (d *zzDecompressor) Close() error {
 	defer d.leave()
 	d.open = false
 	atomic.StoreInt32(&d.busy, 0)
+	if err := d.closeErr; err != nil {
+		d.closeErr = nil
+		atomic.AddInt64(&d.stats.LateVerdicts, 1)
+		return err
+	}
 	return nil
 }
 
@@ -273,6 +285,7 @@ func (d *zzDecompressor) Reset(r io.Reader) error {
 	raw, err := io.ReadAll(r)
 	d.open = true
 	d.err = nil
+	d.closeErr = nil
 	if err != nil {
 		d.err = err
 		return err
@@ -294,6 +307,11 @@ func (d *zzDecompressor) Reset(r io.Reader) error {
 	}
 	atomic.AddInt64(&d.stats.Decompressions, 1)
 	dec, err := algoDecode(d.name, raw)
+	if err != nil && atomic.LoadInt32(&d.stats.CloseVerdict) != 0 && d.name == "zz-len" && len(raw) >= 5 && raw[0] == 'L' {
+		// the length field is this format's integrity check: verdict at Close
+		d.closeErr = err
+		dec, err = append([]byte(nil), raw[5:]...), nil
+	}
 	if err != nil {
 		d.err = err
 		d.out = bytes.NewReader(nil)
